@@ -1,5 +1,6 @@
 """Translator part for C11: what `frozen_dataclass` passes to `dataclass(...)`, the bodies of copy_with / deep_copy_with,
-the order inside new_post_init and the list of methods attached to the class."""
+the order inside new_post_init, the list of methods attached to the class and the copy-protocol hooks (`__deepcopy__`, `__reduce_ex__`, …)
+the decorator installs on it."""
 import ast
 from extract import Skip, src, find_func, lean_bool, HEADER
 
@@ -10,6 +11,9 @@ LEAN_PARAM = {'type_safe': 'typeSafe', 'order': 'order', 'kw_only': 'kwOnly', 's
 DC_DEFAULT = {'frozen': 'false', 'order': 'false', 'kw_only': 'false', 'slots': 'false'}
 # other dataclass options: accepted only when spelled with their default constant
 DC_OTHER_DEFAULT = {'init': True, 'repr': True, 'eq': True, 'unsafe_hash': False, 'match_args': True, 'weakref_slot': False}
+# special methods that change what `copy.deepcopy` / `copy.copy` / `dataclasses.replace` do with an instance of the class
+COPY_HOOKS = ['__deepcopy__', '__copy__', '__reduce__', '__reduce_ex__', '__getstate__', '__setstate__', '__getnewargs__',
+              '__getnewargs_ex__', '__replace__']
 
 
 def no_doc(body):
@@ -102,6 +106,25 @@ def writes_self(fn) -> bool:
             if nm in ('setattr', 'delattr', '__setattr__', '__delattr__', 'vars'):
                 return True
     return False
+
+
+def copy_protocol_hooks(deco, added):
+    """copy-protocol special methods the decorator puts on the class: (a) a function of that name in a list / tuple of methods
+    (`methods_to_add = [...]`) or among the methods recognised as attached, (b) `setattr(new_class | cls_, '<name>', …)`,
+    (c) `new_class.<name> = …` / `cls_.<name> = …` — anywhere inside `decorator`"""
+    found = set(n for n in added if n in COPY_HOOKS)
+    for n in ast.walk(deco):
+        if isinstance(n, (ast.List, ast.Tuple)):
+            for e in n.elts:
+                if isinstance(e, ast.Name) and e.id in COPY_HOOKS:
+                    found.add(e.id)
+        if isinstance(n, ast.Call) and is_name(n.func, 'setattr') and len(n.args) >= 2 and isinstance(n.args[0], ast.Name) \
+                and n.args[0].id in ('new_class', 'cls_') and isinstance(n.args[1], ast.Constant) and n.args[1].value in COPY_HOOKS:
+            found.add(n.args[1].value)
+        if isinstance(n, ast.Attribute) and isinstance(n.ctx, ast.Store) and isinstance(n.value, ast.Name) \
+                and n.value.id in ('new_class', 'cls_') and n.attr in COPY_HOOKS:
+            found.add(n.attr)
+    return [h for h in COPY_HOOKS if h in found]
 
 
 def copy_body(fn) -> str:
@@ -227,6 +250,7 @@ def gen_frozen(repo):
                 and is_name(s.value.args[0], 'new_class') and isinstance(s.value.args[1], ast.Constant) and isinstance(s.value.args[2], ast.Name) \
                 and s.value.args[1].value == s.value.args[2].id:
             added.append(s.value.args[2].id)
+    hooks = copy_protocol_hooks(deco, added)
     # new_post_init: old_post_init(self) before / after self.validate_types(...)
     npi = [n for n in ast.walk(deco) if isinstance(n, ast.FunctionDef) and n.name == 'new_post_init']
     calls_old, old_first = False, False
@@ -278,6 +302,10 @@ def slotsArg {sig} : Bool := {lean_opts['slots']}
 def returnsDataclass : Bool := {lean_bool(returns_new)}
 /-- functions attached to the returned class with `setattr(new_class, name, fn)` -/
 def methodsAdded : List String := [{', '.join('"' + m + '"' for m in added)}]
+/-- copy-protocol special methods (`__deepcopy__`, `__copy__`, `__reduce__`, `__reduce_ex__`, `__getstate__`, `__setstate__`,
+    `__getnewargs__`, `__getnewargs_ex__`, `__replace__`) the decorator installs on the class: with none of them `copy.deepcopy`
+    rebuilds an instance of a frozen dataclass from deep copies of its fields (`object.__reduce_ex__` / `copy._reconstruct`) -/
+def copyProtocolHooks : List String := [{', '.join('"' + m + '"' for m in hooks)}]
 
 def copyWithBody : CopyBody := {cw}
 def deepCopyWithBody : CopyBody := {dcw}
